@@ -613,7 +613,7 @@ def _valid(ops):
     return any(op[0] in (0, 7) for op in ops)
 
 
-LEVEL_TEXT = ("Machine-checked Coq theorems, for ALL rational domains/ranges/queries: end points map to end points, the map is affine, "
+LEVEL_TEXT = ("Machine-checked Coq theorems, for ALL rational queries and ALL non-degenerate rational domains and ranges (a != b; r0 != r1 for the inverse laws - the property's own hypothesis): end points map to end points, the map is affine, "
               "strictly monotone (direction by the orientations), invert is its exact inverse, clamped outputs stay in the range and "
               "agree with the unclamped map inside the domain; and for ALL operation histories of the scale heap machine (constructor with "
               "default or given lists, caller lists, domain, range - of any existing list, including the lists other scales return "
